@@ -75,10 +75,15 @@ def check_C07(tier, seed):
                      "byte-level encoders are C01's"],
         rule=HIST_RULE + "classes: dense, absent-columns (column sets change at partition boundaries; F1 once a merged "
              "partition has a partially-NULL column), nulls-no-compaction, nulls-compaction (F1), absent-columns-blind (restart, batch without a column, "
-             "compacting flush with no query in between, content read afterwards), strings (ordinary words; "
+             "compacting flush with no query in between, content read afterwards), mixed-case-subpartitions (columns "
+             "a0 B1 c2 D3 ..., max_partition_size_bytes 10..20: several multi-column files; flush, evict or restart, "
+             "read), odd-table-names (sanitised table names, one group of three in three is Events / EVENTS / events; "
+             "first request for every table, flush, evict or restart, read), strings (ordinary words; "
              "F28 once a merged packed-string column compresses), hex-strings (F2), compressible-strings (F28), wide-ints "
              "(every factor with restarts; regression class of the fixed F29), the F1 witness and the witness of the fixed "
-             "F3; strings occur only in the three string classes, integers of 8/16/32-bit width and floats everywhere; "
+             "F3; strings occur only in the three string classes, integers of 8/16/32-bit width (a column u of "
+             "non-negative values up to 2^32, i.e. u32 storage above 2^31, in the fixed-column classes) and floats "
+             "everywhere; "
              "oracle without model: "
              "content after every maintenance step = content before = acknowledged rows; partition ranges tile [0,n)")
 
